@@ -261,7 +261,7 @@ const SOUP: &[&str] = &[
     "(", ")", "[", "]", ",", "=", "\"", "\\", "#", "\n", " ", "-", ".", "0", "1", "9", "16384", "2147483648", "pt", "sp", "in",
     "fil", "fill", "filll", "chars", "glue", "kern", "hbox", "vbox", "disc", "rule", "lig", "insertion", "content", "font",
     "width", "u", "{", "}", "ä", "$", "_", "x", "\\u", "\\u{", "\"running\"", "99999", "65536", "32768", "e", "\u{301}", "\u{1f600}",
-    "\\u{ffffffff}", "\t", "\r", ";", "+", "\u{a0}", "A",
+    "\\u{ffffffff}", "\t", "\r", ";", "+", "\u{a0}", "A", "1.2.3pt", "1.5", "\\n", "\\\"", "true", "\"running\"", "=[", "])",
 ];
 
 pub fn soup(rng: &mut Rng) -> String {
